@@ -184,7 +184,7 @@ func (w SocialWrappedCallbacks) callbacks(fns []interface{}) []interface{} {
 func (w SocialWrappedCallbacks) create(c context.Context, a vocab.ActivityStreamsCreate) error {
 	*w.undeliverable = false
 	op := a.GetActivityStreamsObject()
-	if op == nil || op.Len() == 0 {
+	if objectMissing(op) {
 		return ErrObjectRequired
 	}
 	// Obtain all actor IRIs.
@@ -289,7 +289,7 @@ func (w SocialWrappedCallbacks) create(c context.Context, a vocab.ActivityStream
 func (w SocialWrappedCallbacks) update(c context.Context, a vocab.ActivityStreamsUpdate) error {
 	*w.undeliverable = false
 	op := a.GetActivityStreamsObject()
-	if op == nil || op.Len() == 0 {
+	if objectMissing(op) {
 		return ErrObjectRequired
 	}
 	// Obtain all object ids, which should be owned by this server.
@@ -392,7 +392,7 @@ func rawObjectAt(raw map[string]interface{}, idx int) map[string]interface{} {
 func (w SocialWrappedCallbacks) deleteFn(c context.Context, a vocab.ActivityStreamsDelete) error {
 	*w.undeliverable = false
 	op := a.GetActivityStreamsObject()
-	if op == nil || op.Len() == 0 {
+	if objectMissing(op) {
 		return ErrObjectRequired
 	}
 	// Obtain all object ids, which should be owned by this server.
@@ -439,7 +439,7 @@ func (w SocialWrappedCallbacks) deleteFn(c context.Context, a vocab.ActivityStre
 func (w SocialWrappedCallbacks) follow(c context.Context, a vocab.ActivityStreamsFollow) error {
 	*w.undeliverable = false
 	op := a.GetActivityStreamsObject()
-	if op == nil || op.Len() == 0 {
+	if objectMissing(op) {
 		return ErrObjectRequired
 	}
 	if w.Follow != nil {
@@ -452,11 +452,11 @@ func (w SocialWrappedCallbacks) follow(c context.Context, a vocab.ActivityStream
 func (w SocialWrappedCallbacks) add(c context.Context, a vocab.ActivityStreamsAdd) error {
 	*w.undeliverable = false
 	op := a.GetActivityStreamsObject()
-	if op == nil || op.Len() == 0 {
+	if objectMissing(op) {
 		return ErrObjectRequired
 	}
 	target := a.GetActivityStreamsTarget()
-	if target == nil || target.Len() == 0 {
+	if targetMissing(target) {
 		return ErrTargetRequired
 	}
 	if err := add(c, op, target, w.db); err != nil {
@@ -472,11 +472,11 @@ func (w SocialWrappedCallbacks) add(c context.Context, a vocab.ActivityStreamsAd
 func (w SocialWrappedCallbacks) remove(c context.Context, a vocab.ActivityStreamsRemove) error {
 	*w.undeliverable = false
 	op := a.GetActivityStreamsObject()
-	if op == nil || op.Len() == 0 {
+	if objectMissing(op) {
 		return ErrObjectRequired
 	}
 	target := a.GetActivityStreamsTarget()
-	if target == nil || target.Len() == 0 {
+	if targetMissing(target) {
 		return ErrTargetRequired
 	}
 	if err := remove(c, op, target, w.db); err != nil {
@@ -492,7 +492,7 @@ func (w SocialWrappedCallbacks) remove(c context.Context, a vocab.ActivityStream
 func (w SocialWrappedCallbacks) like(c context.Context, a vocab.ActivityStreamsLike) error {
 	*w.undeliverable = false
 	op := a.GetActivityStreamsObject()
-	if op == nil || op.Len() == 0 {
+	if objectMissing(op) {
 		return ErrObjectRequired
 	}
 	// Get this actor's IRI.
@@ -543,7 +543,7 @@ func (w SocialWrappedCallbacks) like(c context.Context, a vocab.ActivityStreamsL
 func (w SocialWrappedCallbacks) undo(c context.Context, a vocab.ActivityStreamsUndo) error {
 	*w.undeliverable = false
 	op := a.GetActivityStreamsObject()
-	if op == nil || op.Len() == 0 {
+	if objectMissing(op) {
 		return ErrObjectRequired
 	}
 	actors := a.GetActivityStreamsActor()
@@ -560,7 +560,7 @@ func (w SocialWrappedCallbacks) undo(c context.Context, a vocab.ActivityStreamsU
 func (w SocialWrappedCallbacks) block(c context.Context, a vocab.ActivityStreamsBlock) error {
 	*w.undeliverable = true
 	op := a.GetActivityStreamsObject()
-	if op == nil || op.Len() == 0 {
+	if objectMissing(op) {
 		return ErrObjectRequired
 	}
 	if w.Block != nil {
